@@ -59,7 +59,7 @@ def check(world, ob, timeout_ms=5000, depth=2, use_cvc5=True, cvc5_timeout_s=10,
     # then the full budget
     # (the last, full-budget attempt uses the default seed again: verdicts must not depend on an unlucky seed when the
     #  machine is busy and the short attempts were cut off)
-    plan = [(min(timeout_ms, 3000), 0), (min(timeout_ms, 8000), 7), (timeout_ms, 0), (min(timeout_ms, 15000), 13)]
+    plan = [(min(timeout_ms, 3000), 0), (min(timeout_ms, 8000), 7), (timeout_ms, 0)]
     if quick_only:
         plan = plan[:1]
     tried_cvc5 = False
